@@ -18,7 +18,9 @@ EXPLANATION = ("Translation validation of proc-macro expansions: a generator enu
                "holding exactly {label_i: value along the path} — name-keyed, hence independent of the label order in the backing vector — and `.local()` iff the type is Local* (S1, S2); "
                "try_get maps exactly the declared values to the same fields and anything else to None, with no other exit (S3); get(enum) maps variant k to the field of value k and "
                "get_str to that value (S4); flush flushes every field once (S5); the auto-flush delegator tree mirrors the inner tree with offsets of same-named fields forwarded "
-               "positionally, get_local adds each offset once to the root pointer, get_root_metric returns the stored key (S6). Bound: the generated declarations (counts in coverage).")
+               "positionally, get_local adds each offset once to the root pointer, get_root_metric returns the stored key (S6); the register_static_*_vec! and auto_flush_from! wrappers forward "
+               "their arguments in order and wrap exactly the given vector (S7, harness smreg); the auto-flush runtime delegates every update unchanged (S8 = C12.L11). "
+               "Bound: the generated declarations (counts in coverage).")
 ASSUMPTIONS = ["declarations outside the bounded grammar are not covered", "the run-time validity of the MaybeUninit offset computation (UB-freedom) is not part of the property",
                "rustc's expansion of the harness is the expansion a user gets"]
 P = lambda i: ("param", i)  # noqa: E731
@@ -419,6 +421,100 @@ def prepare_harness(tier, seed):
     return d, src, specs
 
 
+REG_FORMS = {
+    # harness fn: (opts constructor, builder type fragment of the vector, static struct, has buckets)
+    "r_counter": ("Opts::new", "CounterVecBuilder<prometheus::core::AtomicF64>", "SC", False),
+    "r_int_counter": ("Opts::new", "CounterVecBuilder<prometheus::core::AtomicU64>", "SIC", False),
+    "r_gauge": ("Opts::new", "GaugeVecBuilder<prometheus::core::AtomicF64>", "SG", False),
+    "r_int_gauge": ("Opts::new", "GaugeVecBuilder<prometheus::core::AtomicI64>", "SIG", False),
+    "r_histogram": ("HistogramOpts::new", "HistogramVecBuilder", "SH", False),
+    "r_histogram_buckets": ("HistogramOpts::new", "HistogramVecBuilder", "SH", True),
+}
+AF_FORMS = {
+    # harness fn: (delegator struct, inner struct, source static, has duration)
+    "af_counter": ("AC", "ACInner", "smreg::CVEC", False),
+    "af_counter_dur": ("AC", "ACInner", "smreg::CVEC", True),
+    "af_histogram": ("AH", "AHInner", "smreg::HVEC", False),
+    "af_histogram_dur": ("AH", "AHInner", "smreg::HVEC", True),
+}
+
+
+def rule_S7(ctx):
+    rid = "S7"
+    ctx.rule(rid, "register_static_<kind>_vec!(S, name, help, labels[, buckets]) expands to register_<kind>_vec! of the same kind with the arguments forwarded in order "
+                  "(name, help into the Opts constructor; labels into the vector constructor; buckets into HistogramOpts::buckets), registers a clone of that vector and maps "
+                  "the result through S::from(&vec); auto_flush_from!(VEC, C[, d]) initialises the thread-local inner struct with CInner::from(&VEC), applies "
+                  "with_flush_duration(d.into()) exactly when a duration is given, and returns C::from(&INNER)")
+    try:
+        f = ctx.harness("smreg")[("smreg", "lib")]
+    except extract.ExtractError as e:
+        ctx.ob(rid, "harness-expands", False, "the register_static_*_vec! / auto_flush_from! invocations no longer expand/type-check against /repo's static-metric: %s"
+               % " | ".join([l for l in str(e).splitlines() if l.startswith("error")][:4]), detail=str(e)[-1500:])
+        return
+    n = 0
+    for fn, (octor, builder, st, has_b) in sorted(REG_FORMS.items()):
+        b = ctx.anchor(rid, fn, f.body("smreg::" + fn))
+        if not b:
+            continue
+        ctx.saw(b)
+        n += 1
+        oc = b.calls_to(octor)
+        ok = len(oc) == 1 and [peel(a) for a in oc[0].args] == [P(1), P(2)]
+        ctx.ob(rid, fn + "|name-help", ok, "%s must receive the macro's 2nd and 3rd arguments (name, help) in this order (found %s)" % (octor, [show(a) for c in oc for a in c.args]), site=b.raw["span"]["at"])
+        vc_ = [c for c in b.calls() if c.callee_args.endswith(">::new") and "MetricVec<" in c.callee_args and builder in c.callee_args and "Box" not in c.callee_args and "Result" not in c.callee_args]
+        ok = len(vc_) == 1 and peel(vc_[0].args[1]) == P(3) and bool(oc) and oc[0].result_term() in list(subterms(vc_[0].args[0]))
+        ctx.ob(rid, fn + "|vector", ok, "the vector must be created once, as MetricVec<%s>, from these options and the macro's label argument" % builder, site=b.raw["span"]["at"])
+        bk = b.calls_to("HistogramOpts::buckets")
+        if has_b:
+            okb = len(bk) == 1 and peel(bk[0].args[1]) == P(4) and bool(vc_) and bk[0].result_term() in list(subterms(vc_[0].args[0]))
+        else:
+            okb = not bk
+        ctx.ob(rid, fn + "|buckets", okb, "buckets are forwarded exactly when given", site=b.raw["span"]["at"])
+        rg = b.calls_to("prometheus::register")
+        ok = len(rg) == 1 and bool(vc_) and vc_[0].result_term() in list(subterms(rg[0].args[0])) and count_range(b, [rg[0].bb]) == (1, 1)
+        ctx.ob(rid, fn + "|registers", ok, "the created vector (a clone of it) must be registered exactly once", site=b.raw["span"]["at"])
+        # the Ok payload is S::from(&m) with m the registered vector: either registered.map(|m| S::from(&m)) or the same written out in the body
+        okm = False
+        ret = b.term_local(0)
+        cl = f.body("smreg::%s::{closure#0}" % fn)
+        if is_call(ret, "Result::map") and rg and rg[0].result_term() in list(subterms(ret[2][0])) and cl is not None:
+            ctx.saw(cl)
+            fc = [c for c in cl.calls()]
+            okm = len(fc) == 1 and strip_generics(fc[0].callee).endswith("::%s::from" % st) and peel(fc[0].args[0]) == P(2) and cl.term_local(0) == fc[0].result_term()
+        else:
+            from pvrules.rules import ok_payloads
+            fc = [c for c in b.calls() if strip_generics(c.callee).endswith("::%s::from" % st)]
+            pl = ok_payloads(b)
+            okm = len(fc) == 1 and bool(vc_) and vc_[0].result_term() in list(subterms(fc[0].args[0])) and bool(rg) and b.dominates(rg[0].bb, fc[0].bb) \
+                and bool(pl) and all(peel(t) == fc[0].result_term() for t in pl)
+        ctx.ob(rid, fn + "|maps-through-from", okm, "the result must be registered.map(|m| %s::from(&m))" % st, site=b.raw["span"]["at"])
+    for fn, (deleg, inner, src, has_d) in sorted(AF_FORMS.items()):
+        b = ctx.anchor(rid, fn, f.body("smreg::" + fn))
+        ini = ctx.anchor(rid, fn + "::INNER", f.body("smreg::%s::INNER::__rust_std_internal_init_fn" % fn))
+        if not b or not ini:
+            continue
+        ctx.saw(b)
+        ctx.saw(ini)
+        n += 1
+        cs = b.calls()
+        ok = len(cs) == 1 and strip_generics(cs[0].callee).endswith("::%s::from" % deleg) and b.term_local(0) == cs[0].result_term()
+        ctx.ob(rid, fn + "|returns-from-inner", ok, "auto_flush_from! must return %s::from(&INNER)" % deleg, site=b.raw["span"]["at"])
+        fr = [c for c in ini.calls() if strip_generics(c.callee).endswith("::%s::from" % inner)]
+        ok = len(fr) == 1 and is_call(peel(fr[0].args[0], transparent=[]), "Deref::deref") and src in show(fr[0].args[0])
+        ctx.ob(rid, fn + "|inner-from-source", ok, "INNER must be %s::from(&%s)" % (inner, src), site=ini.raw["span"]["at"])
+        wd = [c for c in ini.calls() if strip_generics(c.callee).endswith("::with_flush_duration")]
+        ret = ini.term_local(0)
+        if has_d:
+            ok = len(wd) == 1 and bool(fr) and peel(wd[0].args[0], transparent=[]) == fr[0].result_term() and ret == wd[0].result_term()
+            if ok:
+                d = peel(wd[0].args[1], transparent=["Into::into"])
+                ok = isinstance(d, tuple) and d and d[0] == "constdef" and d[1] == "smreg::FLUSH"
+        else:
+            ok = not wd and bool(fr) and ret == fr[0].result_term()
+        ctx.ob(rid, fn + "|flush-duration", ok, "with_flush_duration(d.into()) is applied to the inner struct exactly when a duration is given, with that duration", site=ini.raw["span"]["at"])
+    ctx.floor(rid, "register_static_*_vec! / auto_flush_from! invocations validated", n, 10)
+
+
 def run(ctx):
     ctx.rule("S1", "leaves and inner levels: walking the generated from(): every field F is initialised from the next level's from(previous labels in position, const value_F, m) and at the "
                    "last level from MetricVec::with(m, &map) where map received exactly {const label_i: forwarded label_i} for i < last and {label_last: const value_F}; `.local()` iff Local*")
@@ -435,6 +531,7 @@ def run(ctx):
     ctx.rule("S8", "auto-flush runtime (shared with C12.L11): AFLocalCounter / AFLocalHistogram delegate every update unchanged to the wrapped local metric and flush it "
                    "(may_flush / flush), so that what a generated auto-flush accessor receives is delivered to the addressed child")
     ctx.run_rule("S8", lambda c: C06._as(c, "S8", lambda s_: C12.rule_auto_flush(s_, fr, "L11")))
+    ctx.run_rule("S7", rule_S7)
     try:
         if hdir is None:
             lib = os.path.join(VERIF, "harness", "smgen", "src", "lib.rs")
